@@ -96,3 +96,74 @@ fn c12_clean_settles_every_waiter() {
     kani::cover!(n == 2, "C12.cover_two_waiters");
     std::mem::forget(pool);
 }
+
+// ---------------------------------------------------------------------------------------------- stop()
+// O12.4 (modular): `stop` / `do_stop` with the scheduling rounds represented by their contract ("runs queued tasks for
+// a while; workers may finish; may fail"): whenever stop reports success the pool is Stopped and every thread that
+// was joining a task is settled - whether or not work was still running when the rounds ended.
+static mut ROUNDS: usize = 0x7701;
+static mut SCHED_FAILS: bool = false;
+static mut WORKERS_FINISH: bool = false;
+static mut QUEUE_EMPTY_ANSWER: bool = true; // whatever the task queue answers to is_empty() (either, harness's choice)
+mod stop_mirror {
+    use super::{ROUNDS, SCHED_FAILS, WORKERS_FINISH, VERIF_NOW, QUEUE_EMPTY_ANSWER};
+    use crate::co_pool::CoroutinePool;
+    use crate::common::ordered_work_steal::OrderedLocalQueue;
+    use std::fmt::Debug;
+    pub(super) struct MQ<'l, T: Debug>(std::marker::PhantomData<&'l T>);
+    impl<'l, T: Debug> MQ<'l, T> {
+        pub(super) fn is_empty(_q: &OrderedLocalQueue<'l, T>) -> bool { unsafe { QUEUE_EMPTY_ANSWER } }
+    }
+    use std::sync::atomic::Ordering;
+    pub(super) struct MP<'p>(std::marker::PhantomData<&'p ()>);
+    impl<'p> MP<'p> {
+        pub(super) fn try_timeout_schedule_task(p: &mut CoroutinePool<'p>, _timeout_time: u64) -> std::io::Result<u64> {
+            unsafe {
+                ROUNDS += 1;
+                if SCHED_FAILS { return Err(std::io::ErrorKind::Other.into()); }
+                if WORKERS_FINISH { p.running.store(0, Ordering::Release); }
+                if ROUNDS >= 2 { VERIF_NOW = u64::MAX; } // the stated bound: the time limit is reached by the second round
+                Ok(0)
+            }
+        }
+    }
+}
+fn sleep_stub(_d: Duration) {}
+
+#[kani::proof]
+#[kani::unwind(5)]
+#[kani::stub(catch_unwind, cu_stub)]
+#[kani::stub(std::fmt::format, fmt_stub)]
+#[kani::stub(std::sync::Condvar::notify_one, notify_one_stub)]
+#[kani::stub(std::thread::sleep, sleep_stub)]
+#[kani::stub(crate::common::now, now_stub)]
+#[kani::stub(crate::co_pool::CoroutinePool::try_timeout_schedule_task, stop_mirror::MP::try_timeout_schedule_task)]
+#[kani::stub(crate::common::ordered_work_steal::OrderedLocalQueue::is_empty, stop_mirror::MQ::is_empty)]
+fn c12_stop_settles_every_waiter() {
+    let mut pool = CoroutinePool::new(String::new(), 4096, 0, 2, 0);
+    let st = any_pool_state();
+    pool.state.set(st);
+    let running: usize = kani::any();
+    kani::assume(running <= 2);
+    pool.running.store(running, Ordering::Release);
+    let id: u64 = kani::any();
+    let arc = Arc::new((Mutex::new(true), Condvar::new()));
+    let _ = pool.waits.insert(id, arc.clone());
+    unsafe { ROUNDS = 0; SCHED_FAILS = kani::any(); WORKERS_FINISH = kani::any(); QUEUE_EMPTY_ANSWER = kani::any(); VERIF_NOW = 0; }
+    let secs: u64 = kani::any();
+    kani::assume(secs < 1_000_000);
+    let r = pool.stop(Duration::from_secs(secs));
+    let ok = r.is_ok();
+    std::mem::forget(r);
+    if ok {
+        kani::assert(pool.state() == PoolState::Stopped, "C12.successful_stop_leaves_the_pool_stopped");
+        let has_err = match pool.results.get(&id) { Some(r) => r.value().is_err(), None => false };
+        kani::assert(has_err, "C12.successful_stop_settles_every_waiter");
+        kani::assert(!*arc.0.lock().unwrap() && !pool.waits.contains_key(&id), "C12.successful_stop_releases_every_waiter");
+    } else {
+        kani::assert(unsafe { SCHED_FAILS }, "C12.stop_fails_only_if_scheduling_fails");
+    }
+    kani::cover!(ok && st == PoolState::Running && running == 0, "C12.cover_clean_drain_then_stop");
+    kani::cover!(ok && running > 0 && !unsafe { WORKERS_FINISH }, "C12.cover_stop_by_time_limit");
+    std::mem::forget(pool);
+}
